@@ -98,6 +98,11 @@ func stateDescriptio(s *Scanner, c byte) *jerr.JApiError {
 }
 
 func stateDescriptionTextBeginStarter(s *Scanner, c byte) *jerr.JApiError {
+	if IsNewLine(c) {
+		// The rest of a CRLF line break (or an empty line): the text has not begun yet. Without
+		// this an error located at the text is reported one line higher in a CRLF file.
+		return nil
+	}
 	s.found(TextBegin)
 	s.step = stateDescriptionTextBegin
 	return stateDescriptionTextBegin(s, c)
